@@ -39,6 +39,9 @@ func probeMain() {
 		if os.Getenv("C05_PROBE_RACE") != "" {
 			r.Race = true
 		}
+		if os.Getenv("C05_PROBE_REPEAT") != "" && i%2 == 1 {
+			r.Repeat = true
+		}
 		if os.Getenv("C05_PROBE_VARY") != "" {
 			r.GOMAXPROCS = []int{1, 2, 4, 16}[i%4]
 			if i%3 == 1 {
